@@ -21,7 +21,6 @@ import (
 	"context"
 	"crypto/sha256"
 	"database/sql"
-	"encoding/binary"
 	"fmt"
 	"math/rand"
 	"os"
@@ -840,5 +839,3 @@ func (r *c15Run) hashFor(p *c15Ev) lntypes.Hash {
 	}
 	return r.hash[p.H-1]
 }
-
-var _ = binary.BigEndian
